@@ -2,7 +2,7 @@ import c18_driver
 
 PROPS = {
     "C18": dict(
-        driver=c18_driver, variant="tsan", cases=(320, 5000), asan_fraction=0.5, timeout=60, chunk=10, level="exploration", min_nontrivial=60,
+        driver=c18_driver, variant="tsan", cases=(600, 10000), asan_fraction=0.5, timeout=60, chunk=10, level="exploration", min_nontrivial=40,
         rule="case = one call of parallel/sequential constructSurrogate (72%: all five grid families through the three overloads, 1..8 workers, "
              "max_samples_per_job 1..4, budget classes {below the loaded points, fewer than workers, workers x batch, medium, larger than the candidate pool}, "
              "tolerance reached before budget, with/without initial guess, pre-loaded or empty grid, level limits in the call or in the grid, domain transforms) "
